@@ -28,14 +28,15 @@ def pick_sizes(rng):
     return in_win, peer_win, peer_max
 
 
-def gen_schedule(rng, rig, nthr, nops, in_win, peer_max, allow_close=True, allow_sendall=False, ext_codes=(1,)):
+def gen_schedule(rng, rig, nthr, nops, in_win, peer_max, allow_close=True, allow_sendall=False, ext_codes=(1,),
+                 local_only=False, reserve_last=False):
     """Generate a valid schedule step by step against the live rig (thread states come from the real threads).
     Yields op lines; the caller executes each on the rig before asking for the next."""
     pkt = max(min(peer_max, U32), 4096) - 64
     closing = False
     for i in range(nops):
         states = [lt.state for lt in rig.threads]
-        idle = [t for t, s in enumerate(states) if s == "idle"]
+        idle = [t for t, s in enumerate(states) if s == "idle" and not (reserve_last and t == nthr - 1)]
         cands = []
         for t, s in enumerate(states):
             if s == "hold":
@@ -62,14 +63,21 @@ def gen_schedule(rng, rig, nthr, nops, in_win, peer_max, allow_close=True, allow
                     k = rng.choice([1, 10, 100, 3000, 3276, 3277, 4000, 10000, 1 << 20, max(buf, 1), max(buf - 1, 1)])
                     cands += [("recv %d %d %d" % (t, k, err), 6 if buf > 0 else 1)]
             if allow_close and i > nops // 3:
-                cands += [("close %d" % t, 1), ("shutw %d" % t, 1), ("pclose %d" % t, 1), ("reqfail %d" % t, 0.3)]
+                cands += [("close %d" % t, 1), ("shutw %d" % t, 1)]
+                if not local_only:
+                    cands += [("pclose %d" % t, 1), ("reqfail %d" % t, 0.3)]
             code = rng.choice(ext_codes)
-            cands += [("feedx %d %d %d" % (t, code, rng.choice([1, 10, 500, 3277, 5000])), 2)]
-        cands += [("adjust %d" % rng.choice([1, 1, 10, 64, 100, 4032, 5000, 32768, 1 << 31, U32]), 6),
-                  ("feed %d" % rng.choice([1, 5, 100, 3000, 3276, 3277, 4000, 9000, min(in_win // 10, 250000), min(in_win // 10 + 1, 250000)]), 5),
-                  ("mode %s" % rng.choice(["b", "n", "n", "t3", "t10"]), 2)]
+            if not local_only:
+                cands += [("feedx %d %d %d" % (t, code, rng.choice([1, 10, 500, 3277, 5000])), 2)]
+        if not local_only:
+            cands += [("adjust %d" % rng.choice([1, 1, 10, 64, 100, 4032, 5000, 32768, 1 << 31, U32]), 6),
+                      ("feed %d" % rng.choice([1, 5, 100, 3000, 3276, 3277, 4000, 9000, min(in_win // 10, 250000),
+                                               min(in_win // 10 + 1, 250000)]), 5)]
+        cands += [("mode %s" % rng.choice(["b", "n", "n", "t3", "t10"]), 2)]
         if allow_close and i > nops // 2:
-            cands += [("peof", 0.7), ("shutr", 0.3), ("unlink", 0.3)]
+            cands += [("shutr", 0.3), ("unlink", 0.3)]
+            if not local_only:
+                cands += [("peof", 0.7)]
         total = sum(w for _, w in cands)
         x = rng.random() * total
         for op, w in cands:
